@@ -360,10 +360,10 @@ def case_subset(ctx, res, p):
         try:
             B = make(est, kw2)
             init_bm = bitmap(est, B)
-            B.fit(data((est, "J")))
+            B.fit(data((est, p.get("data", "J"))))     # "P": the same cells as another array object (NumPy)
         except Exception as ex:  # noqa
             exc = ex
-    res.case(("subset", cname, tuple(sorted(S))), len(S) > 0, {"op": "subset", "config": cname, "subset": S,
+    res.case(("subset", cname, tuple(sorted(S)), p.get("data", "J")), len(S) > 0, {"op": "subset", "config": cname, "subset": S,
                                                               "outcome": outcome_class(exc)})
     res.count("subset:size=%d" % len(S))
     res.count("subset:est=" + est)
@@ -697,6 +697,11 @@ def run(ctx, res):
         run_case(ctx, res, {"op": "subset", "config": "T-norm", "subset": S})
     run_case(ctx, res, {"op": "history", "config": "T-norm", "ops": ["FI J T", "FP N F"]})
     run_case(ctx, res, {"op": "subset", "config": "D-fixed-over", "subset": ["landmarks", "L", "Lp"]})
+    # ... also when the fresh model gets the same cells as another array object (seeded change C18-f: the cells were
+    # recognised by object identity only)
+    run_case(ctx, res, {"op": "subset", "config": "D-fixed-over", "subset": ["landmarks"], "data": "P"})
+    run_case(ctx, res, {"op": "subset", "config": "M-fixed-over", "subset": ["landmarks"], "data": "P"})
+    run_case(ctx, res, {"op": "subset", "config": "D-sparse", "subset": ["landmarks", "mu"], "data": "P"})
     glue_plan = [("D", {}), ("D", {"landmarks": True}), ("D", {"landmarks": True, "gp_type": "sparse_nystroem", "rank": 3}),
                  ("D", {"gp_type": "full_nystroem", "rank": 0.9, "ls_factor": 2.0}), ("T", {}), ("T", {"normalize": True}),
                  ("T", {"normalize": True, "landmarks": True}), ("T", {"normalize": [4.0, 9.0, 6.0]}), ("T", {"landmarks": True, "gp_type": "fixed"}), ("M", {})]
